@@ -78,6 +78,12 @@ pub struct Medium {
     pub newtype: NewtypeMode,
     pub human_readable: bool,
     pub size_hint: SizeHint,
+    /// like serde's own `flatten` machinery: a keyed record delivers only the entries whose key is
+    /// in the `fields` list the reader passed to `deserialize_struct`; everything else never
+    /// reaches the visitor (so unknown-field rejection cannot be observed in this mode, but a
+    /// `fields` list that disagrees with what the same type writes can)
+    #[serde(default)]
+    pub filter_fields: bool,
 }
 
 impl Medium {
@@ -88,6 +94,7 @@ impl Medium {
         newtype: NewtypeMode::Transparent,
         human_readable: true,
         size_hint: SizeHint::None,
+        filter_fields: false,
     };
     pub fn keyed(&self) -> bool {
         self.framing != Framing::Positional
@@ -99,6 +106,7 @@ impl Medium {
             | (self.newtype as u64) << 6
             | (self.human_readable as u64) << 7
             | (self.size_hint as u64) << 8 // two bits
+            | (self.filter_fields as u64) << 10
     }
 }
 
